@@ -808,16 +808,17 @@ def r8(ctx, fs):
         plus, minus = any('+' in x for x in strs), any('-' in x for x in strs)
         mags = [x[2] for x in pieces if isinstance(x, tuple) and len(x) == 3 and x[0] == 'call' and x[1] == 'smt::to_string']
         n += 1
+        # (whether a separator is printed - first term or not, however that is tracked - does not matter for the sign)
         if one:
-            good = not mags and not minus and (plus or first)
+            good = not mags and not minus
         elif mone:
             good = not mags and minus and not plus
         elif pos is True:
-            good = mags == [C] and not minus and (plus or first)
+            good = mags == [C] and not minus
         elif pos is False:
             good = mags == [('neg', C)] and minus and not plus
         else:
-            good = first and mags == [C] and not plus and not minus      # the leading term prints its signed coefficient
+            good = mags == [C] and not plus and not minus      # prints the signed coefficient itself (the leading term)
         ctx.instance(rid, [f.id, 'path#%d' % n], {'coefficient': 'ONE' if one else '-ONE' if mone else 'positive' if pos else 'not positive' if pos is False else 'any (leading term)',
                                                   'prints': sorted(strs) + [show(m) for m in mags], 'ok': good})
         if not good:
